@@ -356,6 +356,47 @@ def check_wkt(r: str, t: Tally) -> List[Tuple[str, str]]:
     return out[:3]
 
 
+ONE_KINDS = {"mapmsg": "map<string, {T}> f = 1;", "mapenum": "map<int32, {E}> f = 1;",
+             "oneof": "oneof c {{ {N} f = 1; int32 g = 2; }}", "repeated": "repeated {N} f = 1;",
+             "optional": "optional {T} f = 1;", "plainenum": "{NE} f = 1;"}
+
+
+def check_one_kind(r: str, tg: str, kind: str, t: Tally) -> List[Tuple[str, str]]:
+    """A referrer whose ONLY reference to the target package is one field of one kind (nothing else in
+    the module imports the target, so an import emitted in the wrong place is not masked)."""
+    decl = ONE_KINDS[kind].format(T=q(tg, "Top"), N=q(tg, "Top.Nested"), E=q(tg, "TopEnum"), NE=q(tg, "Top.NestedEnum"))
+    src = 'syntax = "proto3";\n' + (f"package {r};\n" if r else "") + f'import "{path_of(tg, "defs")}";\n' + \
+          f"message Only {{ {decl} }}\n"
+    files = {path_of(tg, "defs"): defs_file(tg), path_of(r, "only"): src}
+    res = plugin.compile_protos(files, tag="c13k", want_descriptor=False)
+    t.inc("programs")
+    out: List[Tuple[str, str]] = []
+    try:
+        if res.rc != 0:
+            return [("plugin-failed", res.stderr[-300:])]
+        try:
+            mod = res.module(r)
+            tmod = res.module(tg)
+            want = {"mapmsg": tmod.Top, "mapenum": tmod.TopEnum, "oneof": tmod.TopNested, "repeated": tmod.TopNested,
+                    "optional": tmod.Top, "plainenum": tmod.TopNestedEnum}[kind]
+            val = want(1) if kind in ("mapenum", "plainenum") else (want(x=3) if want is tmod.TopNested else want(v=3))
+            fv = {"mapmsg": {"k": val}, "mapenum": {4: val}, "repeated": [val]}.get(kind, val)
+            m = mod.Only(f=fv)
+            back = mod.Only().parse(bytes(m))
+            t.inc("comparisons", 2)
+            got = back.f
+            elem = list(got.values())[0] if isinstance(got, dict) else (got[0] if isinstance(got, list) else got)
+            if back != m or (type(elem) is not want and kind != "mapenum") or elem != val:
+                out.append(("one-kind-type", f"{kind}: decoded {back!r}, element type {type(elem).__name__}"[:300]))
+            if mod.Only().from_dict(m.to_dict()) != m:
+                out.append(("one-kind-json", f"{kind}: JSON round trip differs"))
+        except Exception as e:
+            out.append(("one-kind-failed", f"{kind}: {type(e).__name__}: {e}"[:300]))
+    finally:
+        res.cleanup()
+    return out
+
+
 def plan(tier: str):
     pk = packages(3)
     items: List[Tuple[str, Any]] = [("pair", (r, t)) for r in pk for t in pk]
@@ -368,6 +409,8 @@ def plan(tier: str):
     items.insert(0, ("all", pk if tier == "thorough" else packages(2)))
     items.insert(1, ("all", SPECIAL_PACKAGES + SPECIAL_PARTNERS))
     items += [("wkt", r) for r in pk]
+    kp = pk if tier == "thorough" else packages(2)
+    items += [("onekind", (r, t, k)) for r in kp for t in kp if r != t for k in ONE_KINDS]
     if tier == "thorough":
         extra = [p for p in packages(4) if p.count(".") == 3][:8] + ["a.x", "b.x", "x.a", "x.b", "a.x.a"]
         items += [("pair", (r, t)) for r in extra for t in pk + extra if r != t]
@@ -391,6 +434,11 @@ def _shard(shard: int, nshards: int, extra) -> Tally:
             label = [f"all-at-once-{len(arg)}"]
             case = {"kind": "all", "packages": arg}
             fails = check_program(files, refs, label, t)
+        elif kind == "onekind":
+            r, tg, k = arg
+            label = [f"only-{k}:" + relation(r, tg)]
+            case = {"kind": "onekind", "referrer": r, "target": tg, "field": k}
+            fails = check_one_kind(r, tg, k, t)
         elif kind == "rpconly":
             r, tg = arg
             label = ["rpc-only:" + relation(r, tg)]
@@ -436,6 +484,9 @@ def replay(case: dict) -> List[Violation]:
         files, refs = pair_program(case["referrer"], case["target"])
         label = [relation(case["referrer"], case["target"])]
         fails = check_program(files, refs, label, t)
+    elif case["kind"] == "onekind":
+        label = [f"only-{case['field']}:" + relation(case["referrer"], case["target"])]
+        fails = check_one_kind(case["referrer"], case["target"], case["field"], t)
     elif case["kind"] == "rpconly":
         label = ["rpc-only:" + relation(case["referrer"], case["target"])]
         fails = check_rpc_only(case["referrer"], case["target"], t)
